@@ -8735,6 +8735,11 @@ char    mod_date[DATE_TIME_SIZE] ;
 
 *error_return = NO_ERROR ;
 
+   /** The date (and the what-string) are written straight into the file
+       header on disk: drop the cached copy of the header so that it is
+       read again instead of answering with the old date **/
+ADFI_stack_control( file_index, 0, 0, DEL_STK_ENTRY, 0, 0, NULL ) ;
+
 ADFI_get_current_date( mod_date ) ;
 
      /** block offset depends on the location the of modification date
